@@ -823,6 +823,30 @@ func (p *Path) builtin(name string, args []Value, c *ssa.CallCommon) Value {
 		return args[0]
 	case "close":
 		return nil
+	case "String": // unsafe.String(ptr, len)
+		ptr, ok := args[0].(Ptr)
+		if !ok {
+			p.unsup("unsafe.String of %T", args[0])
+		}
+		n := p.toInt64(p.term(args[1]), c.Args[1].Type())
+		if ptr.Obj == 0 {
+			return Str{}
+		}
+		return Str{IsObj: true, P: ptr, Len: n}
+	case "StringData": // unsafe.StringData(s)
+		st, ok := args[0].(Str)
+		if !ok {
+			p.unsup("unsafe.StringData of %T", args[0])
+		}
+		if st.IsObj {
+			return st.P
+		}
+		bs, _ := p.strBytes(st)
+		o := p.newObj(len(bs)+1, []Value{p.ts().Const(0, 8)}, "stringdata")
+		for i, b := range bs {
+			o.set(i, b)
+		}
+		return Ptr{Obj: o.ID}
 	case "delete":
 		m := args[0].(MapRef)
 		if m.Obj == 0 {
